@@ -1917,4 +1917,126 @@ theorem hs_feed_rest (hl : H.Lawful) (L : SealLaws Pc) (dcid0 cr csel ch sh ca s
 
 end HsMachine
 
+section HsFinal
+variable (maskFn : Dissect.MaskFn) (H : Crypto.Prims) (Pc : Cipher.Prims) (info : Nat → Pipeline.Info)
+
+/-- a keyed handshake state IS the state the 1-RTT theorem starts from -/
+theorem est_of_hsSt (kl : List Keylog.Key) (dcid0 : Bytes) (sel : SuiteSel) (ch sh ca sa : Bytes) (s : St Tls)
+    (tc ts : PnTab) (cc sc : List Bytes) (core : Tls)
+    (h : HsSt H dcid0 sel ch sh ca sa true s tc ts cc sc core) :
+    Est H Pc kl sel .v1 (rfcGen (hashOf H sel.hash) sel.keyLen sa ca 0)
+      (quicHp (hashOf H sel.hash) ca sel.keyLen) (quicHp (hashOf H sel.hash) sa sel.keyLen) (chachaOf core)
+      s 0 0 tc.app ts.app cc sc := by
+  have k := h.keyed rfl
+  refine ⟨⟨⟨k.suite, h.inv.version, ?_, h.inv.ec, h.inv.es, h.inv.lpc, h.inv.lps⟩, h.nd, ?_, ?_⟩, ?_, k.hpCA, k.hpSA, ?_,
+    h.inv.ver, h.cc, h.sc⟩
+  · rw [k.app]; rfl
+  · rw [h.pc]
+  · rw [h.ps]
+  · rw [h.inv.init]; rfl
+  · rw [← h.core]; rfl
+
+/-- a fresh `QuicSession` object, as `quicMachine.new` returns it -/
+def Fresh (c : QConn) : Prop := c.st = St.init (params H Pc []) ∧ c.raised = none
+
+theorem new_fresh (o : MainLoop.Opts) (p : MainLoop.Pkt) : Fresh H Pc ((quicMachine maskFn H Pc info).new o p) :=
+  ⟨rfl, rfl⟩
+
+def trk0 : Trk := ⟨false, {}, {}, [], [], {}⟩
+
+/-- **The handshake establishes the 1-RTT state.** From a fresh session through every handshake history of the spec
+    (`HsDgs`: datagrams of coalesced Initial / Handshake packets of both directions, packet numbers in the RFC window per
+    space and direction, RFC 9000 §12.4 frames, CIDs of any lengths incl. empty ones, Handshake packets only after the
+    ServerHello), with the connection's key-log lines present at every `handle_packet` call and the LOCAL parser
+    hypothesis `PTrace` on this history's CRYPTO inputs: nothing raises, nothing is exported without `-a`, and — if the
+    keys were installed on the way (`keyed`: some server CRYPTO frame completed a hello) — the state satisfies `Est` with
+    the RFC generation-0 keys, "quic hp" keys and the CIDs learned. -/
+theorem quic_handshake_establishes (hl : H.Lawful) (h32 : H.sha256.outLen = 32) (L : SealLaws Pc)
+    (cr csel ch sh ca sa : Bytes) (early : Option Bytes) (sel : SuiteSel) (hsel : selectSuite csel = some sel)
+    (kl0 : List Keylog.Key) (p0 : MainLoop.Pkt) (d0 : DgH) (items : List (List Keylog.Key × MainLoop.Pkt × DgH))
+    (hkl : ∀ x ∈ (kl0, p0, d0) :: items, KeylogHas x.1 cr ch sh ca sa early)
+    (c : QConn) (hc : Fresh H Pc c)
+    (hok : HsDgs maskFn H Pc L (dgDcid d0) sel sh ch trk0 (d0 :: items.map (·.2.2)))
+    (htr : PTrace cr csel {} (allIns (d0 :: items.map (·.2.2))))
+    (hcar : ∀ x ∈ (kl0, p0, d0) :: items, CarriesH info c (dgWire H Pc L (dgDcid d0) sel sh ch) x.2.1 x.2.2)
+    (hkeyed : (trk0.runDgs (d0 :: items.map (·.2.2))).keyed = true) (kl : List Keylog.Key) :
+    let c' := hsFeedAll (quicMachine maskFn H Pc info) c ((kl0, p0, d0) :: items)
+    let t' := trk0.runDgs (d0 :: items.map (·.2.2))
+    c'.raised = none ∧
+    Est H Pc kl sel .v1 (rfcGen (hashOf H sel.hash) sel.keyLen sa ca 0)
+      (quicHp (hashOf H sel.hash) ca sel.keyLen) (quicHp (hashOf H sel.hash) sa sel.keyLen) (chachaOf t'.core)
+      c'.st 0 0 t'.tc.app t'.ts.app t'.cc t'.sc ∧
+    (∀ o ∈ c'.st.out, UdpOut.exported false (frameOf o) = none) ∧
+    c'.opts = c.opts ∧ c'.server = c.server ∧ c'.client = c.client ∧ c'.serverMac = c.serverMac ∧
+    c'.clientMac = c.clientMac ∧ c'.ipv6 = c.ipv6 := by
+  obtain ⟨hfresh, hr⟩ := hc
+  obtain ⟨hd0, hds⟩ := hok
+  have htr' : PTrace cr csel trk0.core (insOf d0.pkts ++ allIns (items.map (·.2.2))) := by
+    simpa [allIns, List.flatMap_cons, trk0] using htr
+  have hpre : HsSt H (dgDcid d0) sel ch sh ca sa trk0.keyed (feedPre H (params H Pc kl0) c.st (dgDcid d0) .v1)
+      trk0.tc trk0.ts trk0.cc trk0.sc trk0.core := by
+    rw [hfresh]; exact feedPre_fresh H Pc kl0 h32 (dgDcid d0) sel ch sh ca sa
+  obtain ⟨b1, b2, b3, b4, b5, b6, b7, b8, b9⟩ := hs_feed_step maskFn H Pc info hl kl0 L (dgDcid d0) cr csel ch sh ca sa early
+    sel hsel (hkl (kl0, p0, d0) (List.mem_cons_self ..)) trk0 d0 hd0 _ c hr hpre htr' p0
+    (hcar (kl0, p0, d0) (List.mem_cons_self ..))
+  obtain ⟨i1, i2, i3, i4, i5, i6, i7, i8⟩ := hs_feed_rest maskFn H Pc info hl L (dgDcid d0) cr csel ch sh ca sa early sel hsel
+    items (fun x hx => hkl x (List.mem_cons_of_mem _ hx)) (trk0.run d0.pkts) _ b1 b2 hds b3
+    (fun x hx => by
+      obtain ⟨u1, u2, u3⟩ := hcar x (List.mem_cons_of_mem _ hx)
+      exact ⟨u1, u2, by rw [b6]; exact u3⟩)
+  intro c' t'
+  have hc' : c' = hsFeedAll (quicMachine maskFn H Pc info)
+      ((quicMachine maskFn H Pc info).feed c kl0 p0 (dgDcid d0) .v1) items := rfl
+  have ht' : t' = (trk0.run d0.pkts).runDgs (items.map (·.2.2)) := rfl
+  rw [hc', ht']
+  rw [show (trk0.runDgs (d0 :: items.map (·.2.2))) = (trk0.run d0.pkts).runDgs (items.map (·.2.2)) from rfl] at hkeyed
+  rw [hkeyed] at i2
+  exact ⟨i1, est_of_hsSt H Pc kl _ sel ch sh ca sa _ _ _ _ _ _ i2, i2.inv.out, i3.trans b4, i4.trans b5, i5.trans b6,
+    i6.trans b7, i7.trans b8, i8.trans b9⟩
+
+/-- **C02 for a whole connection**: `quic_handshake_establishes`, then `quic_one_rtt_connection_exact`. From a fresh session,
+    for every handshake history of the spec followed by every conformant 1-RTT history (`Send1`, starting from the
+    bookkeeping the handshake left): nothing raises, and the export without `-a` is exactly one UDP frame per 1-RTT datagram
+    that carried a STREAM frame, in capture order, with that datagram's STREAM data, capture time and direction.
+    Hypotheses beyond the RFCs: the key-log lines present at every handshake `handle_packet` call; the LOCAL parser
+    hypothesis `PTrace` for the handshake's CRYPTO inputs; no CRYPTO frames in 1-RTT packets. -/
+theorem quic_connection_exact (hl : H.Lawful) (h32 : H.sha256.outLen = 32) (L : SealLaws Pc)
+    (cr csel ch sh ca sa : Bytes) (early : Option Bytes) (sel : SuiteSel) (hsel : selectSuite csel = some sel)
+    (ho : (hashOf H sel.hash).outLen < 65536)
+    (hsa : sa.length = (hashOf H sel.hash).outLen) (hca : ca.length = (hashOf H sel.hash).outLen)
+    (kl0 : List Keylog.Key) (p0 : MainLoop.Pkt) (d0 : DgH) (items : List (List Keylog.Key × MainLoop.Pkt × DgH))
+    (hkl : ∀ x ∈ (kl0, p0, d0) :: items, KeylogHas x.1 cr ch sh ca sa early)
+    (c : QConn) (hc : Fresh H Pc c)
+    (hok : HsDgs maskFn H Pc L (dgDcid d0) sel sh ch trk0 (d0 :: items.map (·.2.2)))
+    (htr : PTrace cr csel {} (allIns (d0 :: items.map (·.2.2))))
+    (hcar : ∀ x ∈ (kl0, p0, d0) :: items, CarriesH info c (dgWire H Pc L (dgDcid d0) sel sh ch) x.2.1 x.2.2)
+    (hkeyed : (trk0.runDgs (d0 :: items.map (·.2.2))).keyed = true)
+    (items1 : List (List Keylog.Key × MainLoop.Pkt × Dg1))
+    (hcar1 : ∀ x ∈ items1, Carries info c
+      (wireOf H Pc L sel .v1 (rfcGen (hashOf H sel.hash) sel.keyLen sa ca 0)) x.2.1 x.2.2)
+    (hsend : Send1 maskFn H Pc L sel .v1 (rfcGen (hashOf H sel.hash) sel.keyLen sa ca 0)
+      (quicHp (hashOf H sel.hash) ca sel.keyLen) (quicHp (hashOf H sel.hash) sa sel.keyLen)
+      (chachaOf (trk0.runDgs (d0 :: items.map (·.2.2))).core) 0 0
+      (trk0.runDgs (d0 :: items.map (·.2.2))).tc.app (trk0.runDgs (d0 :: items.map (·.2.2))).ts.app
+      (trk0.runDgs (d0 :: items.map (·.2.2))).cc (trk0.runDgs (d0 :: items.map (·.2.2))).sc (items1.map (·.2.2)))
+    (htimes : ((items1.map (·.2.2)).map fun d => (d.x.ts, d.x.srv)).Pairwise (· ≠ ·)) :
+    let QM := quicMachine maskFn H Pc info
+    let c1 := hsFeedAll QM c ((kl0, p0, d0) :: items)
+    (feedAll QM c1 items1).raised = none ∧
+    QM.out false (feedAll QM c1 items1) = expectedOut c (items1.map (·.2.2)) := by
+  intro QM c1
+  obtain ⟨e1, e2, e3, e4, e5, e6, e7, e8, e9⟩ := quic_handshake_establishes maskFn H Pc info hl h32 L cr csel ch sh ca sa early
+    sel hsel kl0 p0 d0 items hkl c hc hok htr hcar hkeyed []
+  have hk := keysWf_rfc H hl Pc [] csel sel hsel .v1 ho sa ca hsa hca
+  obtain ⟨r1, r2⟩ := quic_one_rtt_connection_exact maskFn H Pc info [] L sel .v1 _ _ _ _ hk items1 c1 0 0 _ _ _ _ e1 e2 e3
+    (fun x hx => by
+      obtain ⟨u1, u2, u3⟩ := hcar1 x hx
+      exact ⟨u1, u2, by rw [show c1.client = c.client from e6]; exact u3⟩)
+    hsend htimes
+  refine ⟨r1, ?_⟩
+  rw [r2]
+  unfold expectedOut
+  rw [addressed_congr c c1 e4 e5 e6 e7 e8 e9]
+
+end HsFinal
 end TLX.Props.C02Capstone
